@@ -102,8 +102,8 @@ GOOD_CODEPOINTS = [9, 0xA, 0xD, 0x20, 0x41, 0x7E, 0xA0, 0xD7FF, 0xDC00, 0xFFFD, 
 URIS = [b"http://example.com/", b"https://a.b/c?d=e&amp;f=g#h", b"javascript:alert(1)", b"/rel/path", b"x.html", b"ftp://h/", b"mailto:a@b.c",
         b"http://a/?x=a&y=b", b"data:text/html,x", b"//host/p", b"#frag", b"http://[::1]/", b"HTTP://X/", b"http://a/I&apos;m", b"http://a b/", b"", b"%41", b"%4", b"a:b"]
 GOOD_URIS = [b"http://example.com/", b"https://a.b/c?d=e&amp;f=g#h", b"/rel/path", b"x.html", b"http://a/I&apos;m", b"#frag", b"http://h/%41"]
-GOOD_RE = {b".*": [b"abc", b"", b"x y"], b"[a-z]+": [b"abc", b"x"], b"(http|https|ftp)://.*": [b"http://x/", b"ftp://y"], b"[0-9]+(px|em|%)?": [b"12px", b"50%", b"7"],
-           b"[a-zA-Z0-9 _.-]*": [b"Hello World", b"a_b-c.d", b""], b"[^<>\"']*": [b"abc", b"x=y;"], b"(left|right|center)": [b"left", b"center"]}
+GOOD_RE = {b".*": [b"abc", b"", b"x y", b"a&b", b"?x=1&y=2", b"&lt;&amp;", b"a<b", b"a>b"], b"[a-z]+": [b"abc", b"x"], b"(http|https|ftp)://.*": [b"http://x/", b"ftp://y"], b"[0-9]+(px|em|%)?": [b"12px", b"50%", b"7"],
+           b"[a-zA-Z0-9 _.-]*": [b"Hello World", b"a_b-c.d", b""], b"[^<>\"']*": [b"abc", b"x=y;", b"a&b;", b"&", b"&#x27;&apos;"], b"(left|right|center)": [b"left", b"center"]}
 BAD_VALUES = [b"", b"<", b">", b"&", b"&amp;", b"&lt;x&gt;", b"&quot;", b"&apos;", b"&#39;", b"&#x27;", b"&#X27;", b"&#x28;", b"&nbsp;", b"&amp", b"a&amp;&amp;b",
               b"\x00", b"\xff\xfe", b"a'b", b'a"b', b"x y", b"&#39", b"&", b"&;"]
 
